@@ -499,7 +499,7 @@ Proof.
     + destruct (IH s' (n + 1) Hbs ltac:(lia) ltac:(unfold zlen in *; lia)) as [H1 H2].
       split; [assumption | lia].
     + cbn. split; [exact I | lia].
-  - destruct e; cbn; split; try exact I; lia.
+  - destruct e; cbn; try (destruct s; cbn); split; try exact I; lia.
 Qed.
 
 (** the abstract connection receiver of Model/Receivers.v is this loop for a peer that
